@@ -630,6 +630,43 @@ def r6_build(r, facts):
     r.floor(1)
 
 
+def r7_setters(r, facts):
+    """every setting build_sys honours can be *set*: for each row of the configuration table some public builder method
+    (a `pub fn(self, ..) -> Self` of the Config) stores into that field — a value derived from its parameter, or the
+    constant that switches the option on — on every path to its return.  (R4 decides that build_sys honours the stored
+    setting; a builder that forgets the store makes the option silently unavailable.)"""
+    writers = {}
+    n = 0
+    for f in facts.func_list:
+        if f.kind == 'closure' or not (f.j.get('vis') or '').lower().startswith('pub') or 'config' not in f.path.lower():
+            continue
+        eb = None
+        for loc, s_ in f.assigns():
+            fl = [p_.get('name') for p_ in s_['lhs']['p'] if p_['k'] == 'field']
+            if len(fl) >= 1 and fl[-1] in CONFIG_TABLE and s_['lhs']['l'] == 1 and not f.blocks[loc[0]]['cleanup'] and (len(fl) == 1 or fl[-2] == 'sys'):
+                eb = eb or ExprBuilder(f, multi='phi')
+                e = eb.rvalue(s_['rv'])
+                from_param = any(x[0] == 'arg' and x[1] >= 2 for x in subexprs(e))
+                is_bool = (s_['lhs'].get('ty') or '') == 'bool'
+                switched_on = (e[0] == 'const' and is_bool and e[1] in (True, 1) and e[1] not in (False, 0)) or \
+                              (e[0] == 'const' and not is_bool and isinstance(e[1], int) and not isinstance(e[1], bool) and f.nargs == 1)
+                writers.setdefault(fl[-1], []).append((f, loc, from_param or switched_on, e))
+    for name in CONFIG_TABLE:
+        ws = writers.get(name, [])
+        good = [(f, loc) for f, loc, ok, e in ws if ok]
+        r.inst('Config.%s is set by %s' % (name, sorted({f.path.rsplit('::', 1)[1] for f, loc in good})), good[0][0].where(good[0][1]) if good else '')
+        if not r.require(bool(good), 'setter:%s' % name, 'no public builder method stores the setting `%s` (from its parameter / switching it on): the option cannot be selected' % name):
+            continue
+        n += 1
+        # in each such method the store is on every path to the return
+        for f in {f for f, loc in good}:
+            locs = [loc for f2, loc in good if f2 is f]
+            hit = f.forward_paths_hit([Loc(0, 0)], f.returns(), blockers=locs)
+            r.require(hit is None, 'setter:%s/%s' % (name, f.path.rsplit('::', 1)[1]), 'a path through %s returns without storing `%s`' % (f.path, name), f.where())
+    r.floor(len(CONFIG_TABLE))
+
+
+
 def check(ctx):
     ctx.run('C18.R1', 'ring descriptor owned at birth (OwnedFd::from_raw_fd is the only use of the raw setup result)', r1_fd_owned)
     ctx.run('C18.R2', 'map/unmap pairing on every exit of mmap, Shared::new, Completions::new', r2_map_unmap)
@@ -637,3 +674,4 @@ def check(ctx):
     ctx.run('C18.R4', 'configuration coverage: every Config field reaches its io_uring_params field / setup flag', r4_config_coverage)
     ctx.run('C18.R5', 'every exit of build_sys drops or hands over each owned resource', r5_error_exits)
     ctx.run('C18.R6', 'Config::build constructs Ring only on the Ok edge', r6_build)
+    ctx.run('C18.R7', 'every setting has a public builder method that stores it (parameter-derived / switched on) on every path', r7_setters)
